@@ -8,6 +8,7 @@ package hashprefix_test
 
 import (
 	"context"
+	"encoding/hex"
 	"fmt"
 	"sort"
 	"strings"
@@ -33,7 +34,7 @@ func vc11Pool() (pool []string) {
 	}
 
 	zero, ones := vc11Magic()
-	pool = append(pool, zero, ones)
+	pool = append(pool, zero, ones, vc11Twin2())
 	sort.Strings(pool)
 
 	return pool
@@ -104,6 +105,13 @@ func vc11GenPrefixLabel(t *rapid.T, pool []string) (l vc11PrefixLabel) {
 		return vc11PrefixLabel{text: string(b), kind: "free-nonhex8-tail", pref: sum[:4], free: true}
 	case k == 18:
 		return vc11PrefixLabel{text: "www", kind: "malformed-word", malformed: true}
+	case k == 19:
+		// A near miss: the prefix of a pool name with its last digit moved
+		// by one.
+		b := []byte(sum[:4])
+		b[3] = vc11Hex[(strings.IndexByte(vc11Hex, b[3])+rapid.SampledFrom([]int{1, 15}).Draw(t, "adjacent"))%16]
+
+		return vc11PrefixLabel{text: string(b), kind: "pref-adjacent4", pref: string(b)}
 	default:
 		return vc11PrefixLabel{text: sum[:4], kind: "pref-pool4", pref: sum[:4]}
 	}
@@ -225,7 +233,7 @@ func vc11CompareHashes(got []string, want map[string]bool) (problem string) {
 
 func TestVerifC11Matcher(t *testing.T) {
 	st := vstat.New("C11", "hashprefix.matcher",
-		"rapid histories over two storages behind one Matcher (general and adult suffix): list versions over a 22-name pool "+
+		"rapid histories over two storages behind one Matcher (general and adult suffix): list versions over a 23-name pool "+
 			"with a prefix twin per suffix and names whose digests start with 0000 and ffff (comments, blanks, duplicates, CRLF), prefix queries of 1-6 labels (pool/legacy/"+
 			"random/repeated/malformed), hosts outside the suffixes, resets; after every reset Storage.Matches is compared "+
 			"with membership for the whole pool; non-trivial = a well-formed query whose expected answer is non-empty; "+
@@ -233,7 +241,8 @@ func TestVerifC11Matcher(t *testing.T) {
 		"answer-two-names-one-prefix", "answer-legacy8", "answer-excludes-other-storage", "answer-empty",
 		"answer-after-reset-removed", "malformed-length", "malformed-nonhex4", "malformed-nonhex8-head", "malformed-empty-label",
 		"not-under-suffix", "matches-prefix-twin-not-listed", "text-crlf", "text-duplicate", "text-comment-only",
-		"repeated-prefix-with-zero-hash-listed", "repeated-prefix-with-ones-hash-listed")
+		"repeated-prefix-with-zero-hash-listed", "repeated-prefix-with-ones-hash-listed", "answer-three-names-one-prefix",
+		"adjacent-prefix-of-listed-name", "storage-used-before-first-list")
 	st.Finish(t)
 
 	pool := vc11Pool()
@@ -291,6 +300,16 @@ func TestVerifC11Matcher(t *testing.T) {
 				if err != nil {
 					t.Fatalf("NewStorage(\"\"): %v", err)
 				}
+
+				// A storage that has not been given a list yet is empty.
+				probe := rapid.SampledFrom(pool).Draw(t, "emptyProbe")
+				var pref hashprefix.Prefix
+				_, _ = hex.Decode(pref[:], []byte(vc11Sum(probe)[:4]))
+				if got := strgs[i].Hashes([]hashprefix.Prefix{pref, {}}); len(got) != 0 || strgs[i].Matches(probe) || strgs[i].Matches("") {
+					t.Fatalf("a storage without a list answers %v for %q (Matches %t)", got, probe, strgs[i].Matches(probe))
+				}
+
+				st.Class("storage-used-before-first-list")
 
 				n, rerr := strgs[i].Reset(lists[i].text)
 				if rerr != nil || n != lists[i].count {
@@ -370,6 +389,16 @@ func TestVerifC11Matcher(t *testing.T) {
 					continue
 				}
 
+				for _, l := range q.labels {
+					if l.kind == "pref-adjacent4" && len(vc11ExpectedHashes(lists[i].listed, map[string]bool{l.pref: true})) == 0 {
+						for name := range lists[i].listed {
+							if sum := vc11Sum(name); sum[:3] == l.pref[:3] {
+								classes = append(classes, "adjacent-prefix-of-listed-name")
+							}
+						}
+					}
+				}
+
 				if len(want) == 0 {
 					classes = append(classes, "answer-empty")
 				} else {
@@ -377,8 +406,11 @@ func TestVerifC11Matcher(t *testing.T) {
 					byPref := map[string]int{}
 					for h := range want {
 						byPref[h[:4]]++
-						if byPref[h[:4]] == 2 {
+						switch byPref[h[:4]] {
+						case 2:
 							classes = append(classes, "answer-two-names-one-prefix")
+						case 3:
+							classes = append(classes, "answer-three-names-one-prefix")
 						}
 					}
 
